@@ -484,9 +484,13 @@ impl SessionParams {
 /// correctness of replaying the same operations.
 pub struct Session<T> {
     store: Store,
+    // Note: dropping the delta builder and the updater each waits for a worker of a different
+    // thread pool. `finish` releases the delta builder's worker first; the declaration (= drop)
+    // order must be the same, otherwise sessions being finished and sessions being dropped can
+    // wait for each other's workers.
+    rollback_delta: Option<rollback::ReverseDeltaBuilder>,
     merkle_updater: Updater,
     metrics: Metrics,
-    rollback_delta: Option<rollback::ReverseDeltaBuilder>,
     overlay: LiveOverlay,
     witness_mode: WitnessMode,
     // Note: this needs to be after rollback_delta and merkle_updater in declaration order,
